@@ -21,4 +21,5 @@ INVARIANT UnknownNamesAreReportedAndIgnored
 INVARIANT OthersUntouched
 INVARIANT CopiesStartEqual
 INVARIANT AdHocStaysWithTheCopy
+INVARIANT LateSettingOnlyWhereItExists
 CHECK_DEADLOCK FALSE
